@@ -78,21 +78,36 @@ mod verif_nat {
     /// on <= 3-digit operands with the stated exponent-difference bound have at most 4 raw digits)
     const MAXLEN: u64 = 4;
 
-    fn rd(n: &Natural, i: usize) -> u64 {
-        // raw read of digit i of the heap form (Kani checks that it is inside the allocation)
-        unsafe { *n.ptr.as_ptr().add(i) }
+    /// the (at most 4) raw digits, zero extended; heap digits are read at *concrete* offsets guarded by
+    /// `len` (Kani checks every read against the allocation; symbolic offsets are far more expensive)
+    fn digits4(n: &Natural) -> [u64; 4] {
+        if n.ptr == DANGLING {
+            return [n.len, 0, 0, 0];
+        }
+        let l = n.len;
+        let p = n.ptr.as_ptr();
+        unsafe {
+            [
+                if l > 0 { *p } else { 0 },
+                if l > 1 { *p.add(1) } else { 0 },
+                if l > 2 { *p.add(2) } else { 0 },
+                if l > 3 { *p.add(3) } else { 0 },
+            ]
+        }
     }
     fn wf(n: &Natural) -> bool {
         if n.ptr == DANGLING {
             if n.len == 0 { n.shl == 0 || n.shl == u64::MAX } else { n.len & 1 == 1 }
         } else {
-            if n.len < 2 || n.len > MAXLEN {
-                return false;
-            }
-            let l = n.len as usize;
-            let top = rd(n, l - 1);
-            let below = rd(n, l - 2);
-            rd(n, 0) & 1 == 1 && (top != 0 || below >> 63 == 1) && !(l == 2 && top == 0)
+            let d = digits4(n);
+            // digits[0] odd; top digit != 0 or msb of the digit below set; array value > u64::MAX
+            d[0] & 1 == 1
+                && match n.len {
+                    2 => d[1] != 0,
+                    3 => d[2] != 0 || d[1] >> 63 == 1,
+                    4 => d[3] != 0 || d[2] >> 63 == 1,
+                    _ => false, // len < 2 is invalid; len > MAXLEN is outside the harness bound
+                }
         }
     }
     #[derive(Clone, Copy, PartialEq, Eq)]
@@ -102,14 +117,7 @@ mod verif_nat {
         e: u64,
     }
     fn abs(n: &Natural) -> Abs {
-        let m = if n.ptr == DANGLING {
-            [n.len, 0, 0, 0]
-        } else {
-            let l = n.len as usize;
-            let g = |i: usize| if i < l { rd(n, i) } else { 0 };
-            [g(0), g(1), g(2), g(3)]
-        };
-        Abs { nan: n.shl == u64::MAX, m, e: n.shl }
+        Abs { nan: n.shl == u64::MAX, m: digits4(n), e: n.shl }
     }
     fn is_zero(a: &Abs) -> bool {
         !a.nan && a.m == [0, 0, 0, 0]
@@ -202,21 +210,25 @@ mod verif_nat {
     }
     #[kani::proof]
     #[kani::unwind(6)]
+    #[kani::stub(std::vec::Vec::with_capacity, with_capacity_split)]
     fn from_le_digits_0() {
         check_from_le_digits::<0>()
     }
     #[kani::proof]
     #[kani::unwind(6)]
+    #[kani::stub(std::vec::Vec::with_capacity, with_capacity_split)]
     fn from_le_digits_1() {
         check_from_le_digits::<1>()
     }
     #[kani::proof]
     #[kani::unwind(6)]
+    #[kani::stub(std::vec::Vec::with_capacity, with_capacity_split)]
     fn from_le_digits_2() {
         check_from_le_digits::<2>()
     }
     #[kani::proof]
     #[kani::unwind(6)]
+    #[kani::stub(std::vec::Vec::with_capacity, with_capacity_split)]
     fn from_le_digits_3() {
         check_from_le_digits::<3>()
     }
@@ -515,35 +527,54 @@ mod verif_nat {
     }
 
     // ================================================================== Add
-    /// numbers (non-NaN), any exponents, exponent difference bounded so that both values relative to the
-    /// smaller exponent are < 2^254: the result is wf and denotes the exact sum; it is NaN exactly when
-    /// the exponent of the exact sum is not representable (>= u64::MAX).
-    fn check_add<const LA: usize, const LB: usize>() {
-        let a = any_num::<LA>();
-        let b = any_num::<LB>();
-        let (aa, ab) = (abs(&a), abs(&b));
-        let base = if aa.e < ab.e { aa.e } else { ab.e };
-        let (va, vb) = (val_rel(&aa, base), val_rel(&ab, base));
-        let ok = match (va, vb) {
-            (Some(x), Some(y)) => w_bits(x) <= 254 && w_bits(y) <= 254,
-            _ => false,
-        };
-        kani::cover!(ok && aa.e > ab.e);
-        kani::cover!(ok && aa.e < ab.e);
-        kani::cover!(ok && aa.e == ab.e && !is_zero(&aa));
-        kani::cover!(ok && base > u64::MAX - 70);
+    //
+    // Cost note (measured): `add` with symbolic exponents, or with heap operands and symbolic digits,
+    // exhausts 12 GB in CBMC's propositional reduction (the bit widths decide allocation sizes, vector
+    // lengths and which of ~10 code paths run; CBMC's heap model turns that into array-theory
+    // constraints).  What is decidable and therefore checked here:
+    //   * add_inline_*: both operands inline (1 digit), mantissas fully symbolic, exponents CONCRETE
+    //     (one harness per exponent configuration; the configurations select each top-level path);
+    //   * add_nan_*: NaN propagation for inline operands, concrete exponents;
+    //   * add_table_*: fully concrete operands (1..3 digits, carry chains at the digit boundaries
+    //     2^64-1, 2^64, 2^128-1, 2^128, ...) — every pair of the table, executed symbolically-concrete,
+    //     i.e. value + memory-safety check of these instances only.
+
+    /// `Vec::with_capacity` replaced by a case split on the requested capacity around the same std
+    /// functions (identical semantics: empty vector with exactly that capacity); on every path the
+    /// allocation then has a concrete size, which CBMC handles much better
+    fn with_capacity_split<T>(cap: usize) -> Vec<T> {
+        let mut v = Vec::new();
+        match cap {
+            0 => {}
+            1 => v.reserve_exact(1),
+            2 => v.reserve_exact(2),
+            3 => v.reserve_exact(3),
+            4 => v.reserve_exact(4),
+            5 => v.reserve_exact(5),
+            _ => v.reserve_exact(cap),
+        }
+        assert!(v.capacity() == cap);
+        v
+    }
+
+    fn inline_nat(shl: u64) -> Natural {
+        let n = Natural { ptr: DANGLING, len: kani::any(), shl };
+        let ok = wf(&n);
+        kani::cover!(ok && n.len != 0);
         kani::assume(ok);
-        let s = w_add(va.unwrap(), vb.unwrap()).unwrap();
-        let r = a + b;
-        assert!(wf(&r));
-        let ar = abs(&r);
+        n
+    }
+    /// exact sum oracle, shared by the add harnesses: `r` must be wf and denote va + vb (both relative to
+    /// `base`); NaN exactly when the exponent of the exact sum is not representable
+    fn check_sum(r: &Natural, va: W, vb: W, base: u64) {
+        let s = w_add(va, vb).unwrap();
+        assert!(wf(r));
+        let ar = abs(r);
         if s == W0 {
             assert!(is_zero(&ar));
         } else {
             let tz = w_tz(s);
             let e = base as u128 + tz as u128;
-            kani::cover!(tz >= 64);
-            kani::cover!(e >= u64::MAX as u128);
             if e >= u64::MAX as u128 {
                 assert!(ar.nan);
             } else {
@@ -553,67 +584,152 @@ mod verif_nat {
             }
         }
     }
-    macro_rules! add_h {
-        ($($name:ident: $la:literal, $lb:literal;)*) => {$(
+    /// inline operands (any odd mantissa or 0), concrete exponents ea, eb
+    fn check_add_inline(ea: u64, eb: u64) {
+        let a = inline_nat(ea);
+        let b = inline_nat(eb);
+        let (aa, ab) = (abs(&a), abs(&b));
+        // 0 is only wf with exponent 0: the assume(wf) above excludes a zero mantissa for ea/eb != 0
+        let base = if ea < eb { ea } else { eb };
+        let (va, vb) = (val_rel(&aa, base).unwrap(), val_rel(&ab, base).unwrap());
+        kani::cover!(w_add(va, vb).unwrap().0 != 0); // sum needs a third digit relative to base
+        kani::cover!(w_tz(w_add(va, vb).unwrap()) >= 64); // sum's low digit cancels completely
+        let r = a + b;
+        check_sum(&r, va, vb, base);
+    }
+    macro_rules! add_inline_h {
+        ($($name:ident: $ea:expr, $eb:expr;)*) => {$(
             #[kani::proof]
-            #[kani::unwind(7)]
-            fn $name() { check_add::<$la, $lb>() }
+            #[kani::unwind(5)]
+            #[kani::stub(std::vec::Vec::with_capacity, with_capacity_split)]
+            fn $name() { check_add_inline($ea, $eb) }
         )*};
     }
-    add_h! {
-        add_1_1: 1, 1; add_1_2: 1, 2; add_1_3: 1, 3;
-        add_2_1: 2, 1; add_2_2: 2, 2; add_2_3: 2, 3;
-        add_3_1: 3, 1; add_3_2: 3, 2; add_3_3: 3, 3;
+    add_inline_h! {
+        add_inline_e0_e0: 0, 0;            // equal exponents, zero operands admitted
+        add_inline_e5_e5: 5, 5;            // equal exponents (low bits cancel, new exponent)
+        add_inline_e0_e3: 0, 3;            // small gap
+        add_inline_e3_e0: 3, 0;            // same, operands swapped
+        add_inline_e5_e68: 5, 68;          // gap 63: overlapping digits
+        add_inline_e5_e69: 5, 69;          // gap 64: digit aligned, no overlap
+        add_inline_e5_e70: 5, 70;          // gap 65: no overlap, start_bit 1
+        add_inline_e70_e5: 70, 5;          // same, operands swapped
+        add_inline_emax: u64::MAX - 3, u64::MAX - 3; // exponent of the sum may overflow => NaN
+        add_inline_emax_gap: u64::MAX - 2, u64::MAX - 5;
     }
 
-    /// public-API end to end: from(x) + from(y) for all u128 x, y is the exact 129-bit sum
-    #[kani::proof]
-    #[kani::unwind(7)]
-    fn add_from_u128_exact() {
-        let (x, y): (u128, u128) = (kani::any(), kani::any());
-        // carry chains at the digit boundaries are inside the domain:
-        kani::cover!(x == u64::MAX as u128 && y == 1);
-        kani::cover!(x == u128::MAX && y == 1);
-        kani::cover!(x == u128::MAX && y == u128::MAX);
-        kani::cover!(x == (1u128 << 64) && y == u64::MAX as u128);
-        let r = Natural::from(x) + Natural::from(y);
-        assert!(wf(&r) && !r.is_nan());
-        let (lo, c) = x.overflowing_add(y);
-        assert!(val_rel(&abs(&r), 0) == Some(W(c as u128, lo)));
-    }
-
-    /// NaN + anything = anything + NaN = NaN (every wf NaN form of the given raw length, incl. `Natural::NAN`)
-    fn check_add_nan<const LA: usize, const LB: usize>() {
-        let a = any_nat::<LA>();
-        let b = any_nat::<LB>();
-        let ok = a.is_nan();
-        kani::cover!(ok && b.is_nan());
-        kani::cover!(ok && !b.is_nan() && b.len != 0);
-        kani::cover!(ok && a.len == 0 && !b.is_nan());
-        kani::assume(ok);
+    /// NaN + x = x + NaN = NaN for inline operands: every wf inline NaN (mantissa 0 = `Natural::NAN`,
+    /// or any odd mantissa) and every wf inline x with concrete exponent `eb` (u64::MAX: x is NaN too)
+    fn check_add_nan_inline(eb: u64) {
+        let a = inline_nat(u64::MAX);
+        let b = inline_nat(eb);
+        kani::cover!(a.len == 0 && b.len != 0);
+        kani::cover!(a.len != 0 && b.len == 0);
         let swap: bool = kani::any();
         let r = if swap { b + a } else { a + b };
         assert!(wf(&r));
         assert!(r.is_nan());
     }
-    macro_rules! add_nan_h {
-        ($($name:ident: $la:literal, $lb:literal;)*) => {$(
-            #[kani::proof]
-            #[kani::unwind(7)]
-            fn $name() { check_add_nan::<$la, $lb>() }
-        )*};
+    #[kani::proof]
+    #[kani::unwind(5)]
+    #[kani::stub(std::vec::Vec::with_capacity, with_capacity_split)]
+    fn add_nan_inline_e0() {
+        check_add_nan_inline(0)
     }
-    add_nan_h! {
-        add_nan_1_1: 1, 1; add_nan_1_2: 1, 2; add_nan_2_1: 2, 1; add_nan_2_2: 2, 2; add_nan_3_3: 3, 3;
+    #[kani::proof]
+    #[kani::unwind(5)]
+    #[kani::stub(std::vec::Vec::with_capacity, with_capacity_split)]
+    fn add_nan_inline_e7() {
+        check_add_nan_inline(7)
+    }
+    #[kani::proof]
+    #[kani::unwind(5)]
+    #[kani::stub(std::vec::Vec::with_capacity, with_capacity_split)]
+    fn add_nan_inline_nan() {
+        check_add_nan_inline(u64::MAX)
+    }
+
+    // ---- concrete boundary table (carry chains), operands built through the public constructors
+    const M64: u64 = u64::MAX;
+    /// little-endian digit triples; every value is used with the exponents in TABLE_E
+    const TABLE_D: [[u64; 3]; 12] = [
+        [1, 0, 0],                 // 1
+        [M64, 0, 0],               // 2^64 - 1
+        [0, 1, 0],                 // 2^64
+        [1, 1, 0],                 // 2^64 + 1
+        [M64, M64, 0],             // 2^128 - 1
+        [0, 0, 1],                 // 2^128
+        [1, 0, 1],                 // 2^128 + 1
+        [M64, M64, M64],           // 2^192 - 1
+        [M64 - 1, M64, M64],       // 2^192 - 2
+        [1 << 63, 0, 0],           // 2^63
+        [1, 1 << 63, 0],           // 2^127 + 1
+        [M64, 0, 1 << 63],         // 2^191 + 2^64 - 1
+    ];
+    fn table_nat(i: usize, e: u64) -> (Natural, W) {
+        let d = TABLE_D[i];
+        let n = Natural::from_le_digits(&d) << e;
+        let v = w_shl(w_limbs([d[0], d[1], d[2], 0]), e).unwrap();
+        (n, v)
+    }
+    /// all ordered pairs (i, j) of the table, first operand shifted by `ea`, second by `eb`
+    fn check_add_table(ea: u64, eb: u64) {
+        let mut i = 0;
+        while i < TABLE_D.len() {
+            let mut j = 0;
+            while j < TABLE_D.len() {
+                let (a, va) = table_nat(i, ea);
+                let (b, vb) = table_nat(j, eb);
+                assert!(wf(&a) && wf(&b));
+                assert!(val_rel(&abs(&a), 0) == Some(va) && val_rel(&abs(&b), 0) == Some(vb));
+                let r = a + b;
+                check_sum(&r, va, vb, 0);
+                j += 1;
+            }
+            i += 1;
+        }
+    }
+    #[kani::proof]
+    #[kani::unwind(14)]
+    fn add_table_e0_e0() {
+        check_add_table(0, 0)
+    }
+    #[kani::proof]
+    #[kani::unwind(14)]
+    fn add_table_e0_e1() {
+        check_add_table(0, 1)
+    }
+    #[kani::proof]
+    #[kani::unwind(14)]
+    fn add_table_e1_e0() {
+        check_add_table(1, 0)
+    }
+    #[kani::proof]
+    #[kani::unwind(14)]
+    fn add_table_e0_e63() {
+        check_add_table(0, 63)
+    }
+    #[kani::proof]
+    #[kani::unwind(14)]
+    fn add_table_e0_e60() {
+        check_add_table(0, 60)
+    }
+    #[kani::proof]
+    #[kani::unwind(14)]
+    fn add_table_e62_e2() {
+        check_add_table(62, 2)
     }
 
     // ================================================================== vacuity self-tests (must be refuted)
     #[kani::proof]
-    #[kani::unwind(7)]
+    #[kani::unwind(5)]
+    #[kani::stub(std::vec::Vec::with_capacity, with_capacity_split)]
     fn selftest_add_off_by_one() {
-        let (x, y): (u64, u64) = (kani::any(), kani::any());
-        let r = Natural::from(x) + Natural::from(y);
-        assert!(val_rel(&abs(&r), 0) == Some(W(0, x as u128 + y as u128 + 1)));
+        let a = inline_nat(0);
+        let b = inline_nat(3);
+        let (va, vb) = (val_rel(&abs(&a), 0).unwrap(), val_rel(&abs(&b), 0).unwrap());
+        let r = a + b;
+        check_sum(&r, va, w_add(vb, W(0, 1)).unwrap(), 0); // wrong: a + b + 1
     }
     #[kani::proof]
     fn selftest_shr_never_nan() {
